@@ -5,7 +5,8 @@ Monitor shape
     ``omml_to_latex`` (defining module and every importing module's binding: docx and pptx extractor).
     Every evaluation is counted; it records "returned a str" and "the input tree serialises the same
     before and after".  Each generated tree is parsed twice, converted three times (t1, t2, t1 again) under a
-    CPU budget (process CPU time; 5 ms x elements + 50 ms, re-run once before it is called slow / a hang).
+    CPU budget (process CPU time; 5 ms x elements + 50 ms; re-run once before it is called a hang, four times
+    before it is called slow).
   * parent: the verdict.  ``vlib.gen.omml.analyse`` walks the *spec* the XML was written from and gives
     the ordered mapped run texts (independent symbol table), the documented template rendering (or why
     the tests/README do not define it: ``unclaimed``), literal braces, malformed radicals, risky features.
@@ -83,7 +84,11 @@ def _observe(xml: str) -> dict:
     from vlib.worker import arm_cpu, disarm_cpu
     f = _EV["fn"]
     ob = {"attempts": 0}
-    for attempt in (0, 1):
+    # Decided on process CPU time.  A hang is called after two attempts; "slow" only when the budget is exceeded
+    # five times in a row (on a loaded virtual machine a descheduled vCPU is charged to whoever was running).
+    for attempt in range(5):
+        if attempt:
+            time.sleep(0.05 * attempt)
         t1 = ET.fromstring(xml)
         nodes = sum(1 for _ in t1.iter())
         budget = 0.005 * nodes + 0.05
@@ -108,7 +113,7 @@ def _observe(xml: str) -> dict:
             disarm_cpu()
         ob["cpu"] = round(time.process_time() - c0, 5)
         ob["slow"] = ob["cpu"] > budget
-        if not ob["hang"] and not ob["slow"]:
+        if (not ob["hang"] and not ob["slow"]) or (ob["hang"] and attempt >= 1):
             break
     ob["mut"] = _ser(t1) != before or any(e["mut"] for e in _EV["events"])
     ob["contract_seen"] = len(_EV["events"])
@@ -469,7 +474,7 @@ def judge(O, a, ob) -> list[tuple[str, str]]:
     v = []
     out = ob["out"]
     if ob.get("slow"):
-        v.append(("cpu-budget-exceeded", f"{ob['cpu']} s process CPU for {ob['nodes']} elements, twice"))
+        v.append(("cpu-budget-exceeded", f"{ob['cpu']} s process CPU for {ob['nodes']} elements, five times in a row"))
     if not ob.get("det"):
         v.append(("nondeterministic", f"{out[:200]!r} vs {str(ob.get('out2'))[:200]!r}"))
     if ob.get("mut"):
